@@ -1,7 +1,9 @@
 /-
-The Edwards scalar multiplications of Model/EdMul.lean over an arbitrary additive commutative group: whenever the routine
-does not reject the scalar (`some r`), r = k • P (resp. k • P + m • Q) — for every integer k, no reduction modulo a group
-order involved — and the routine rejects exactly the scalars that do not fit its fixed-size recoding array.
+The Edwards scalar multiplications of Model/EdMul.lean over an arbitrary additive commutative group G.
+For a base point killed by the group order r (the prime-order subgroup) and r < 2^RLC_FP_BITS, every routine is TOTAL
+(the recoding of the reduced scalar always fits the fixed-size array: no ERR_NO_BUFFER) and returns k • P
+(resp. k • P + m • Q) for EVERY integer k — the routines reduce the scalar modulo r first, like the ep_* originals.
+ed_mul_basic and ed_mul_monty do not reduce and are right for every k on every point.
 -/
 import Mathlib.Algebra.BigOperators.Ring.Finset
 import RelicVerif.Lemmas.MulAlg
@@ -15,6 +17,11 @@ variable {G : Type} [AddCommGroup G]
 /-- the identity test of the carrier recognises only the identity -/
 def IsOSound (isO : G → Bool) : Prop := ∀ x, isO x = true → x = 0
 
+/-- the constants describe a group order that fits the field size -/
+structure Par.Ok (par : Par) : Prop where
+  ord_pos : 0 < par.ord
+  ord_fits : par.ord < 2 ^ par.fpBits
+
 theorem signed_spec (k : ℤ) (x : G) : signed gops k x = (if k < 0 then -x else x) := by
   rfl
 
@@ -25,12 +32,36 @@ theorem signed_natAbs (k : ℤ) (p : G) : signed gops k ((k.natAbs : ℤ) • p)
   · rw [← neg_zsmul]; congr 1; omega
   · congr 1; omega
 
-/-- sign on the base: |k| • (±P) = k • P -/
-theorem natAbs_signed (k : ℤ) (p : G) : (k.natAbs : ℤ) • signed gops k p = k • p := by
-  rw [signed_spec]
-  split
-  · rw [zsmul_neg, ← neg_zsmul]; congr 1; omega
-  · congr 1; omega
+/-- the reduced scalar as an integer -/
+theorem red_cast (par : Par) (h0 : 0 < par.ord) (k : ℤ) : ((par.red k : ℕ) : ℤ) = k % (par.ord : ℤ) :=
+  Int.toNat_of_nonneg (Int.emod_nonneg _ (by omega))
+
+/-- (k mod r) • P = k • P on points killed by r -/
+theorem red_zsmul (par : Par) (h0 : 0 < par.ord) (p : G) (hp : (par.ord : ℤ) • p = 0) (k : ℤ) :
+    ((par.red k : ℕ) : ℤ) • p = k • p := by
+  rw [red_cast par h0, zsmul_emod p _ hp]
+
+/-- the reduced scalar is below the order -/
+theorem red_lt (par : Par) (h0 : 0 < par.ord) (k : ℤ) : par.red k < par.ord := by
+  have h1 : k % (par.ord : ℤ) < par.ord := Int.emod_lt_of_pos _ (by omega)
+  have h2 := red_cast par h0 k
+  omega
+
+/-- a number below 2^b has at most b bits -/
+theorem bitLen_le_of_lt (n b : Nat) (h : n < 2 ^ b) : Rec.bitLen n ≤ b := by
+  rcases Nat.eq_zero_or_pos n with h0 | h0
+  · rw [h0]; simp [Rec.bitLen]
+  · obtain ⟨h1, _⟩ := Rec.bitLen_spec n h0
+    have h2 : 2 ^ (Rec.bitLen n - 1) < 2 ^ b := by omega
+    have := (Nat.pow_lt_pow_iff_right (by decide : 1 < 2)).1 h2
+    omega
+
+/-- the reduced scalar fits RLC_FP_BITS bits -/
+theorem red_bitLen (par : Par) (hok : par.Ok) (k : ℤ) : Rec.bitLen (par.red k) ≤ par.fpBits := by
+  apply bitLen_le_of_lt
+  have := red_lt par hok.ord_pos k
+  have := hok.ord_fits
+  omega
 
 theorem bitsVal_cons (b : Bool) (bs : List Bool) :
     bitsVal (b :: bs) = 2 ^ bs.length * (if b then 1 else 0) + bitsVal bs := by
@@ -103,58 +134,74 @@ theorem signedNaf_correct (p : G) (k : ℤ) (w cap : Nat) (hw : 2 ≤ w) (ds : L
   rw [hlen, ← two_pow_pred w hw]
   exact hd d hdm
 
-theorem mulBasic_correct (isO : G → Bool) (hO : IsOSound isO) (p : G) (k : ℤ) (r : G)
-    (h : mulBasic gops isO p k = some r) : r = k • p := by
-  unfold mulBasic at h
-  split at h
+/-- ed_mul_basic: every k, every point, never rejects -/
+theorem mulBasic_correct (isO : G → Bool) (hO : IsOSound isO) (p : G) (k : ℤ) :
+    mulBasic gops isO p k = some (k • p) := by
+  unfold mulBasic
+  split
   · rename_i hex
-    simp only [Option.some.injEq] at h
-    rw [← h, exit_zero isO hO p k hex]; rfl
-  · simp only [Option.map_eq_some_iff] at h
-    obtain ⟨ds, hds, rfl⟩ := h
+    rw [exit_zero isO hO p k hex]; rfl
+  · obtain ⟨ds, hds⟩ : ∃ ds, Rec.recNaf (Rec.bitLen k.natAbs + 1) k.natAbs 2 = some ds := by
+      simp [Rec.recNaf]
+    rw [hds, Option.map_some]
+    congr 1
     have := signedNaf_correct p k 2 _ (le_refl _) ds hds
     simpa [tabOdd] using this
 
-/-- ed_mul_basic never rejects -/
-theorem mulBasic_total (isO : G → Bool) (p : G) (k : ℤ) : (mulBasic gops isO p k).isSome = true := by
-  unfold mulBasic
+/-- ed_mul_monty: every k, every point -/
+theorem mulMonty_correct (isO : G → Bool) (hO : IsOSound isO) (p : G) (k : ℤ) :
+    mulMonty gops isO p k = some (k • p) := by
+  unfold mulMonty
   split
-  · rfl
-  · simp [Rec.recNaf]
-
-theorem mulLwnaf_correct (isO : G → Bool) (hO : IsOSound isO) (par : Par) (hw : 2 ≤ par.width) (p : G) (k : ℤ) (r : G)
-    (h : mulLwnaf gops isO par p k = some r) : r = k • p := by
-  unfold mulLwnaf at h
-  split at h
   · rename_i hex
-    simp only [Option.some.injEq] at h
-    rw [← h, exit_zero isO hO p k hex]; rfl
-  · simp only [Option.map_eq_some_iff] at h
-    obtain ⟨ds, hds, rfl⟩ := h
-    exact signedNaf_correct p k par.width _ hw ds hds
+    rw [exit_zero isO hO p k hex]; rfl
+  · rw [ladder_spec, bitsVal_bitsMsb, signed_natAbs]
 
-/-- ed_mul_lwnaf rejects exactly the scalars of more than RLC_FP_BITS bits (finding C17-F1) -/
-theorem mulLwnaf_none_iff (isO : G → Bool) (par : Par) (p : G) (k : ℤ) :
-    mulLwnaf gops isO par p k = none ↔ (¬ (k = 0 ∨ isO p = true) ∧ par.fpBits < Rec.bitLen k.natAbs) := by
+/-- the width-w NAF of the reduced scalar fits naf[RLC_FP_BITS + 1] -/
+theorem recNaf_red_some (par : Par) (hok : par.Ok) (k : ℤ) (w : Nat) :
+    ∃ ds, Rec.recNaf (par.fpBits + 1) (par.red k) w = some ds := by
+  unfold Rec.recNaf
+  rw [if_neg (by have := red_bitLen par hok k; omega)]
+  exact ⟨_, rfl⟩
+
+/-- width-w NAF of k mod r with the table of odd multiples -/
+theorem redNaf_correct (par : Par) (h0 : 0 < par.ord) (p : G) (hp : (par.ord : ℤ) • p = 0) (k : ℤ) (w cap : Nat)
+    (hw : 2 ≤ w) (ds : List Int) (h : Rec.recNaf cap (par.red k) w = some ds) :
+    mulSigned gops (tabOdd gops p (2 ^ (w - 2))) gops.zero ds = k • p := by
+  obtain ⟨hv, hd, _⟩ := Rec.recNaf_spec cap _ w hw ds h
+  obtain ⟨hlen, htab⟩ := tabOdd_spec p (2 ^ (w - 2))
+  rw [gops_zero, mulSigned_spec p _ (by rw [hlen]; exact htab) ds, hv, red_zsmul par h0 p hp]
+  intro d hdm
+  rw [hlen, ← two_pow_pred w hw]
+  exact hd d hdm
+
+theorem mulLwnaf_correct (isO : G → Bool) (hO : IsOSound isO) (par : Par) (hok : par.Ok) (hw : 2 ≤ par.width)
+    (p : G) (hp : (par.ord : ℤ) • p = 0) (k : ℤ) : mulLwnaf gops isO par p k = some (k • p) := by
   unfold mulLwnaf
   split
-  · rename_i hex; simp [hex]
   · rename_i hex
-    simp only [Option.map_eq_none_iff, Rec.recNaf, hex, not_false_eq_true, true_and]
-    split <;> simp <;> omega
+    rw [exit_zero isO hO p k hex]; rfl
+  · obtain ⟨ds, hds⟩ := recNaf_red_some par hok k par.width
+    rw [hds, Option.map_some]
+    congr 1
+    exact redNaf_correct par hok.ord_pos p hp k par.width _ hw ds hds
 
-theorem mulSlide_correct (isO : G → Bool) (hO : IsOSound isO) (par : Par) (hw : 1 ≤ par.width) (p : G) (k : ℤ) (r : G)
-    (h : mulSlide gops isO par p k = some r) : r = k • p := by
-  unfold mulSlide at h
-  split at h
+theorem mulSlide_correct (isO : G → Bool) (hO : IsOSound isO) (par : Par) (hok : par.Ok) (hw : 1 ≤ par.width)
+    (p : G) (hp : (par.ord : ℤ) • p = 0) (k : ℤ) : mulSlide gops isO par p k = some (k • p) := by
+  unfold mulSlide
+  split
   · rename_i hex
-    simp only [Option.some.injEq] at h
-    rw [← h, exit_zero isO hO p k hex]; rfl
-  · simp only [Option.map_eq_some_iff] at h
-    obtain ⟨win, hwin, rfl⟩ := h
+    rw [exit_zero isO hO p k hex]; rfl
+  · obtain ⟨win, hwin⟩ : ∃ win, Rec.recSlw (par.fpBits + 1) (par.red k) par.width = some win := by
+      unfold Rec.recSlw
+      simp only
+      rw [if_neg (by have := red_bitLen par hok k; omega)]
+      exact ⟨_, rfl⟩
+    rw [hwin, Option.map_some]
+    congr 1
     obtain ⟨hv, hd, _⟩ := Rec.recSlw_spec _ _ par.width hw win hwin
     obtain ⟨hlen, htab⟩ := tabOdd_spec p (2 ^ (par.width - 1))
-    rw [gops_zero, mulSlide_spec p _ (by rw [hlen]; exact htab) win, hv, signed_natAbs]
+    rw [gops_zero, mulSlide_spec p _ (by rw [hlen]; exact htab) win, hv, red_zsmul par hok.ord_pos p hp]
     intro d hdm
     rcases hd d hdm with h0 | ⟨h1, h2, h3⟩
     · exact Or.inl h0
@@ -164,69 +211,67 @@ theorem mulSlide_correct (isO : G → Bool) (hO : IsOSound isO) (par : Par) (hw 
       rw [Int.toNat_of_nonneg (by omega)]
       exact_mod_cast h3
 
-theorem mulSlide_none_iff (isO : G → Bool) (par : Par) (p : G) (k : ℤ) :
-    mulSlide gops isO par p k = none ↔ (¬ (k = 0 ∨ isO p = true) ∧ par.fpBits + 1 < Rec.bitLen k.natAbs) := by
-  unfold mulSlide
+theorem mulLwreg_correct (isO : G → Bool) (hO : IsOSound isO) (par : Par) (hok : par.Ok) (hw : 3 ≤ par.width)
+    (p : G) (hp : (par.ord : ℤ) • p = 0) (k : ℤ) : mulLwreg gops isO par p k = some (k • p) := by
+  unfold mulLwreg
   split
-  · rename_i hex; simp [hex]
   · rename_i hex
-    simp only [Option.map_eq_none_iff, Rec.recSlw, hex, not_false_eq_true, true_and]
-    split <;> simp <;> omega
-
-theorem mulMonty_correct (isO : G → Bool) (hO : IsOSound isO) (p : G) (k : ℤ) (r : G)
-    (h : mulMonty gops isO p k = some r) : r = k • p := by
-  unfold mulMonty at h
-  split at h
-  · rename_i hex
-    simp only [Option.some.injEq] at h
-    rw [← h, exit_zero isO hO p k hex]; rfl
-  · simp only [Option.some.injEq] at h
-    rw [← h, ladder_spec, bitsVal_bitsMsb, signed_natAbs]
-
-/-- ed_mul_lwreg is right for every |k| below 2^RLC_FP_BITS (more precisely |k| | 1 < 2^RLC_FP_BITS); beyond that the recoding
-    is of a number it was not designed for (finding C17-F2) -/
-theorem mulLwreg_correct (isO : G → Bool) (hO : IsOSound isO) (par : Par) (hw : 3 ≤ par.width) (p : G) (k : ℤ) (r : G)
-    (hk : k.natAbs ||| 1 < 2 ^ par.fpBits) (h : mulLwreg gops isO par p k = some r) : r = k • p := by
-  unfold mulLwreg at h
-  split at h
-  · rename_i hex
-    simp only [Option.some.injEq] at h
-    rw [← h, exit_zero isO hO p k hex]; rfl
-  · simp only [Option.map_eq_some_iff] at h
-    obtain ⟨reg, hreg, rfl⟩ := h
-    have hor : k.natAbs ||| 1 = k.natAbs + (if k.natAbs % 2 = 0 then 1 else 0) := by
-      have e1 : (k.natAbs ||| 1) / 2 = k.natAbs / 2 := by rw [Nat.or_div_two]; simp
-      have e2 : (k.natAbs ||| 1) % 2 = 1 := by rw [Nat.or_mod_two_eq_one]; simp
+    rw [exit_zero isO hO p k hex]; rfl
+  · simp only
+    have hlt : k.natAbs % par.ord < par.ord := Nat.mod_lt _ hok.ord_pos
+    have hfits := hok.ord_fits
+    generalize hkk : k.natAbs % par.ord = kk at hlt
+    have hor : kk ||| 1 = kk + (if kk % 2 = 0 then 1 else 0) := by
+      have e1 : (kk ||| 1) / 2 = kk / 2 := by rw [Nat.or_div_two]; simp
+      have e2 : (kk ||| 1) % 2 = 1 := by rw [Nat.or_mod_two_eq_one]; simp
       split <;> omega
-    obtain ⟨hv, hd⟩ := recReg_digits _ _ par.fpBits par.width (by omega) (by rw [hor]; split <;> omega) hk reg hreg
+    have hodd : (kk ||| 1) % 2 = 1 := by rw [hor]; split <;> omega
+    have hfit : kk ||| 1 < 2 ^ par.fpBits := by rw [hor]; split <;> omega
+    obtain ⟨reg, hreg⟩ : ∃ reg, Rec.recReg ((par.fpBits + 1 + (par.width - 1) - 1) / (par.width - 1) + 1)
+        (kk ||| 1) par.fpBits par.width = some reg := by
+      unfold Rec.recReg
+      simp only
+      rw [if_neg (by
+        have := Nat.div_le_div_right (c := par.width - 1)
+          (show par.fpBits + (par.width - 1) - 1 ≤ par.fpBits + 1 + (par.width - 1) - 1 by omega)
+        omega)]
+      rcases Rec.recRegLoop par.width ((par.fpBits + (par.width - 1) - 1) / (par.width - 1)) (kk ||| 1) []
+        with ⟨ds, t⟩
+      exact ⟨_, rfl⟩
+    rw [hreg, Option.map_some]
+    congr 1
+    obtain ⟨hv, hd⟩ := recReg_digits _ _ par.fpBits par.width (by omega) hodd hfit reg hreg
     obtain ⟨hlen, htab⟩ := tabOdd_spec p (2 ^ (par.width - 2))
     rw [gops_zero, mulReg_spec p _ (by rw [hlen]; exact htab) par.width reg
       (by intro d hdm; rw [hlen, ← two_pow_pred par.width (by omega)]; exact hd d hdm), hv, hor]
-    rw [← signed_natAbs k p]
+    have hmod : ((kk : ℕ) : ℤ) • p = (k.natAbs : ℤ) • p := by
+      rw [← hkk, Int.natCast_mod, zsmul_emod p _ hp]
+    rw [← signed_natAbs k p, ← hmod]
     congr 2
-    by_cases h2 : k.natAbs % 2 = 0 <;> simp [h2]
+    by_cases h2 : kk % 2 = 0 <;> simp [h2]
 
 /-! ### fixed base -/
 
-/-- ed_mul_fix_basic is right for |k| < 2^bn_bits(r) (finding C17-F2 beyond) -/
-theorem mulFixBasic_correct (par : Par) (p : G) (k : ℤ) (r : G) (hk : k.natAbs < 2 ^ par.ordBits)
-    (h : mulFixBasic gops par p k = some r) : r = k • p := by
-  unfold mulFixBasic at h
-  simp only [Option.some.injEq] at h
-  rw [← h, gops_zero, mulFixBasic_spec p _ _ hk, signed_natAbs]
+theorem mulFixBasic_correct (par : Par) (hok : par.Ok) (p : G) (hp : (par.ord : ℤ) • p = 0) (k : ℤ) :
+    mulFixBasic gops par p k = some (k • p) := by
+  unfold mulFixBasic
+  split
+  · rename_i hk
+    rw [hk, zero_zsmul]; rfl
+  · congr 1
+    rw [gops_zero, mulFixBasic_spec p _ _ ?_, red_zsmul par hok.ord_pos p hp]
+    have := red_lt par hok.ord_pos k
+    have := Rec.lt_two_pow_bitLen par.ord
+    unfold Par.ordBits
+    omega
 
-theorem mulFixLwnaf_correct (par : Par) (hw : 2 ≤ par.depth) (p : G) (k : ℤ) (r : G)
-    (h : mulFixLwnaf gops par p k = some r) : r = k • p := by
-  unfold mulFixLwnaf at h
-  simp only [Option.map_eq_some_iff] at h
-  obtain ⟨ds, hds, rfl⟩ := h
-  exact signedNaf_correct p k par.depth _ hw ds hds
-
-theorem mulFixLwnaf_none_iff (par : Par) (p : G) (k : ℤ) :
-    mulFixLwnaf gops par p k = none ↔ par.fpBits < Rec.bitLen k.natAbs := by
+theorem mulFixLwnaf_correct (par : Par) (hok : par.Ok) (hw : 2 ≤ par.depth) (p : G) (hp : (par.ord : ℤ) • p = 0) (k : ℤ) :
+    mulFixLwnaf gops par p k = some (k • p) := by
   unfold mulFixLwnaf
-  simp only [Option.map_eq_none_iff, Rec.recNaf]
-  split <;> simp <;> omega
+  obtain ⟨ds, hds⟩ := recNaf_red_some par hok k par.depth
+  rw [hds, Option.map_some]
+  congr 1
+  exact redNaf_correct par hok.ord_pos p hp k par.depth _ hw ds hds
 
 /-! ### comb method -/
 
@@ -370,19 +415,30 @@ theorem horner_spec (p : G) (T : ℕ → G) (c : ℕ → ℤ) : ∀ (l : Nat) (r
     simp only [zsmul_add, add_zsmul, ← mul_zsmul, pow_succ]
     abel
 
-/-- ed_mul_fix_combs is right for |k| < 2^(depth·⌈bn_bits(r)/depth⌉); the bits above are ignored (finding C17-F2) -/
-theorem mulFixCombs_correct (par : Par) (hd : 0 < par.depth) (p : G) (k : ℤ) (r : G)
-    (hk : k.natAbs < 2 ^ (par.depth * ((par.ordBits + par.depth - 1) / par.depth)))
-    (h : mulFixCombs gops par p k = some r) : r = k • p := by
-  have _ := hd  -- not needed: for depth = 0 the bound forces k = 0
-  unfold mulFixCombs at h
-  simp only [Option.some.injEq] at h
-  generalize (par.ordBits + par.depth - 1) / par.depth = l at hk h
+/-- depth·⌈b/depth⌉ ≥ b -/
+theorem le_mul_ceil (b d : Nat) (hd : 0 < d) : b ≤ d * ((b + d - 1) / d) := by
+  have h1 := Nat.div_add_mod (b + d - 1) d
+  have h2 := Nat.mod_lt (b + d - 1) hd
+  omega
+
+theorem mulFixCombs_correct (par : Par) (hok : par.Ok) (hd : 0 < par.depth) (p : G) (hp : (par.ord : ℤ) • p = 0) (k : ℤ) :
+    mulFixCombs gops par p k = some (k • p) := by
+  have hk : par.red k < 2 ^ (par.depth * ((par.ordBits + par.depth - 1) / par.depth)) := by
+    have h1 := red_lt par hok.ord_pos k
+    have h2 : par.ord < 2 ^ par.ordBits := Rec.lt_two_pow_bitLen par.ord
+    have h3 : 2 ^ par.ordBits ≤ 2 ^ (par.depth * ((par.ordBits + par.depth - 1) / par.depth)) :=
+      Nat.pow_le_pow_right (by decide) (le_mul_ceil _ _ hd)
+    omega
+  unfold mulFixCombs
+  simp only
+  congr 1
+  generalize (par.ordBits + par.depth - 1) / par.depth = l at hk
   obtain ⟨_, hget⟩ := tabCombs_getElem? p l par.depth
-  rw [← h, horner_spec p _
-    (fun i => ∑ j ∈ Finset.range par.depth, (((k.natAbs >>> (i + j * l)) % 2 : ℕ) : ℤ) * 2 ^ (j * l)) l _
-    (fun i _ => ?_), comb_sum, Nat.mod_eq_of_lt hk, gops_zero, zsmul_zero, zero_add, signed_natAbs]
-  obtain ⟨h1, h2⟩ := combCol_spec k.natAbs l i par.depth
+  rw [horner_spec p _
+    (fun i => ∑ j ∈ Finset.range par.depth, (((par.red k >>> (i + j * l)) % 2 : ℕ) : ℤ) * 2 ^ (j * l)) l _
+    (fun i _ => ?_), comb_sum, Nat.mod_eq_of_lt hk, gops_zero, zsmul_zero, zero_add,
+    red_zsmul par hok.ord_pos p hp]
+  obtain ⟨h1, h2⟩ := combCol_spec (par.red k) l i par.depth
   rw [gops_zero, List.getD_eq_getElem?_getD, hget _ h1, Option.getD_some]
   congr 1
   apply Finset.sum_congr rfl
@@ -391,95 +447,126 @@ theorem mulFixCombs_correct (par : Par) (hd : 0 < par.depth) (p : G) (k : ℤ) (
 
 /-! ### simultaneous -/
 
-theorem simBasic_correct (mul : G → ℤ → Option G) (hmul : ∀ x j r, mul x j = some r → r = j • x)
-    (p : G) (k : ℤ) (q : G) (m : ℤ) (r : G) (h : simBasic gops mul p k q m = some r) : r = k • p + m • q := by
-  unfold simBasic at h
-  split at h
-  · rename_i a b ha hb
-    simp only [Option.some.injEq] at h
-    rw [← h, gops_add, hmul _ _ _ ha, hmul _ _ _ hb, add_comm]
-  · exact absurd h (by simp)
+theorem simBasic_correct (mul : G → ℤ → Option G) (p : G) (k : ℤ) (q : G) (m : ℤ)
+    (hp : mul p k = some (k • p)) (hq : mul q m = some (m • q)) :
+    simBasic gops mul p k q m = some (k • p + m • q) := by
+  unfold simBasic
+  rw [hp, hq]
+  simp only [gops_add]
+  rw [add_comm]
 
 /-- the early exits of the simultaneous multiplications -/
-theorem simExits_correct (isO : G → Bool) (hO : IsOSound isO)
-    (mul : G → ℤ → Option G) (hmul : ∀ x j r, mul x j = some r → r = j • x)
-    (p : G) (k : ℤ) (q : G) (m : ℤ) (body : Option G) (r : G)
-    (hbody : k ≠ 0 → m ≠ 0 → body = some r → r = k • p + m • q)
-    (h : simExits gops isO mul p k q m body = some r) : r = k • p + m • q := by
-  unfold simExits at h
-  split at h
+theorem simExits_correct (isO : G → Bool) (hO : IsOSound isO) (mul : G → ℤ → Option G)
+    (p : G) (k : ℤ) (q : G) (m : ℤ) (body : Option G)
+    (hmp : mul p k = some (k • p)) (hmq : mul q m = some (m • q))
+    (hbody : body = some (k • p + m • q)) :
+    simExits gops isO mul p k q m body = some (k • p + m • q) := by
+  unfold simExits
+  split
   · rename_i hex
-    rw [hmul _ _ _ h, exit_zero isO hO p k hex, zero_add]
-  · rename_i hk
-    split at h
+    rw [hmq, exit_zero isO hO p k hex, zero_add]
+  · split
     · rename_i hex
-      rw [hmul _ _ _ h, exit_zero isO hO q m hex, add_zero]
-    · rename_i hm
-      exact hbody (fun e => hk (Or.inl e)) (fun e => hm (Or.inl e)) h
+      rw [hmp, exit_zero isO hO q m hex, add_zero]
+    · exact hbody
 
-theorem simTrick_correct (isO : G → Bool) (hO : IsOSound isO) (par : Par) (hw : 2 ≤ par.width)
-    (mul : G → ℤ → Option G) (hmul : ∀ x j r, mul x j = some r → r = j • x)
-    (p : G) (k : ℤ) (q : G) (m : ℤ) (r : G) (h : simTrick gops isO par mul p k q m = some r) : r = k • p + m • q := by
-  unfold simTrick at h
-  refine simExits_correct isO hO mul hmul p k q m _ r ?_ h
-  intro hk hm hb
+/-- fixed windows of any scalar, zero included (the single window 0) -/
+theorem recWin_spec_zero_ok (cap k w : Nat) (hw : 0 < w) (ds : List Int) (h : Rec.recWin cap k w = some ds) :
+    Rec.eval w ds = k ∧ ∀ d ∈ ds, 0 ≤ d ∧ d < 2 ^ w := by
+  rcases Nat.eq_zero_or_pos k with h0 | h0
+  · subst h0
+    unfold Rec.recWin at h
+    simp only [Rec.bitLen, if_true] at h
+    split at h
+    · exact absurd h (by simp)
+    · simp only [Nat.zero_le, if_true, List.range_zero, List.map_nil, List.nil_append, Option.some.injEq] at h
+      subst h
+      have hpw : (0 : ℤ) < 2 ^ w := by positivity
+      simp [Rec.getBits, hpw]
+  · obtain ⟨hv, hd, _⟩ := Rec.recWin_spec cap k w hw h0 ds h
+    exact ⟨hv, hd⟩
+
+/-- the windows of the reduced scalar fit ⌈RLC_FP_BITS/w⌉ entries -/
+theorem recWin_red_some (par : Par) (hok : par.Ok) (k : ℤ) (w : Nat) (hw : 0 < w) :
+    ∃ ds, Rec.recWin ((par.fpBits + w - 1) / w) (par.red k) w = some ds := by
+  unfold Rec.recWin
+  simp only
+  rw [if_neg ?_]
+  · exact ⟨_, rfl⟩
+  · have h1 := red_bitLen par hok k
+    have h2 : 1 ≤ par.fpBits := by
+      have := hok.ord_pos
+      have := hok.ord_fits
+      rcases Nat.eq_zero_or_pos par.fpBits with h | h
+      · rw [h] at this; omega
+      · exact h
+    have h3 := Nat.div_le_div_right (c := w) (show Rec.bitLen (par.red k) + w - 1 ≤ par.fpBits + w - 1 by omega)
+    have h4 : 1 ≤ (par.fpBits + w - 1) / w := by
+      rw [Nat.le_div_iff_mul_le hw]; omega
+    omega
+
+theorem simTrick_correct (isO : G → Bool) (hO : IsOSound isO) (par : Par) (hok : par.Ok) (hw : 2 ≤ par.width)
+    (mul : G → ℤ → Option G) (p : G) (k : ℤ) (q : G) (m : ℤ)
+    (hp : (par.ord : ℤ) • p = 0) (hq : (par.ord : ℤ) • q = 0)
+    (hmp : mul p k = some (k • p)) (hmq : mul q m = some (m • q)) :
+    simTrick gops isO par mul p k q m = some (k • p + m • q) := by
+  unfold simTrick
+  refine simExits_correct isO hO mul p k q m _ hmp hmq ?_
   have hw' : 0 < par.width / 2 := by omega
-  simp only at hb
-  split at hb
-  · rename_i w0 w1 h0 h1
-    simp only [Option.some.injEq] at hb
-    obtain ⟨hv0, hd0, _⟩ := Rec.recWin_spec _ _ _ hw' (by omega) w0 h0
-    obtain ⟨hv1, hd1, _⟩ := Rec.recWin_spec _ _ _ hw' (by omega) w1 h1
-    rw [← hb, gops_zero, simTrick_spec _ _ _ w0 w1 hd0 hd1, hv0, hv1, natAbs_signed, natAbs_signed]
-  · exact absurd hb (by simp)
+  obtain ⟨w0, h0⟩ := recWin_red_some par hok k _ hw'
+  obtain ⟨w1, h1⟩ := recWin_red_some par hok m _ hw'
+  simp only [h0, h1]
+  congr 1
+  obtain ⟨hv0, hd0⟩ := recWin_spec_zero_ok _ _ _ hw' w0 h0
+  obtain ⟨hv1, hd1⟩ := recWin_spec_zero_ok _ _ _ hw' w1 h1
+  rw [gops_zero, simTrick_spec _ _ _ w0 w1 hd0 hd1, hv0, hv1, red_zsmul par hok.ord_pos p hp,
+    red_zsmul par hok.ord_pos q hq]
 
-theorem eval_map_neg (s : Nat) (ds : List Int) : Rec.eval s (ds.map fun d => -d) = - Rec.eval s ds := by
-  induction ds with
-  | nil => simp
-  | cons d ds ih => simp only [List.map_cons, Rec.eval_cons, ih]; ring
+/-- two interleaved NAFs (widths w0, w1) of the reduced scalars -/
+theorem redInter_correct (par : Par) (h0 : 0 < par.ord) (p q : G) (hp : (par.ord : ℤ) • p = 0)
+    (hq : (par.ord : ℤ) • q = 0) (k m : ℤ) (wp wq : Nat) (hwp : 2 ≤ wp) (hwq : 2 ≤ wq) (cap : Nat) (n0 n1 : List Int)
+    (hn0 : Rec.recNaf cap (par.red k) wp = some n0) (hn1 : Rec.recNaf cap (par.red m) wq = some n1) :
+    MulAlg.simInter gops (tabOdd gops p (2 ^ (wp - 2))) (tabOdd gops q (2 ^ (wq - 2))) gops.zero n0 n1
+      = k • p + m • q := by
+  obtain ⟨hv0, hd0, _⟩ := Rec.recNaf_spec cap _ wp hwp n0 hn0
+  obtain ⟨hv1, hd1, _⟩ := Rec.recNaf_spec cap _ wq hwq n1 hn1
+  obtain ⟨hlen0, htab0⟩ := tabOdd_spec p (2 ^ (wp - 2))
+  obtain ⟨hlen1, htab1⟩ := tabOdd_spec q (2 ^ (wq - 2))
+  rw [gops_zero, simInter_spec p q _ _ (by rw [hlen0]; exact htab0) (by rw [hlen1]; exact htab1) n0 n1, hv0, hv1,
+    red_zsmul par h0 p hp, red_zsmul par h0 q hq]
+  · intro d hdm
+    rw [hlen0, ← two_pow_pred wp hwp]
+    exact hd0 d hdm
+  · intro d hdm
+    rw [hlen1, ← two_pow_pred wq hwq]
+    exact hd1 d hdm
 
-theorem simInter_correct (isO : G → Bool) (hO : IsOSound isO) (par : Par) (hw : 2 ≤ par.width)
-    (mul : G → ℤ → Option G) (hmul : ∀ x j r, mul x j = some r → r = j • x)
-    (p : G) (k : ℤ) (q : G) (m : ℤ) (r : G) (h : simInter gops isO par mul p k q m = some r) : r = k • p + m • q := by
-  unfold simInter at h
-  refine simExits_correct isO hO mul hmul p k q m _ r ?_ h
-  intro _ _ hb
-  split at hb
-  · rename_i n0 n1 h0 h1
-    simp only [Option.some.injEq] at hb
-    obtain ⟨hv0, hd0, _⟩ := Rec.recNaf_spec _ _ _ hw n0 h0
-    obtain ⟨hv1, hd1, _⟩ := Rec.recNaf_spec _ _ _ hw n1 h1
-    obtain ⟨hlen0, htab0⟩ := tabOdd_spec p (2 ^ (par.width - 2))
-    obtain ⟨hlen1, htab1⟩ := tabOdd_spec q (2 ^ (par.width - 2))
-    have key : ∀ (j : ℤ) (n : List ℤ), Rec.eval 1 n = j.natAbs →
-        (∀ d ∈ n, d = 0 ∨ (d % 2 ≠ 0 ∧ d.natAbs < 2 ^ (par.width - 1))) →
-        Rec.eval 1 (if j < 0 then n.map (fun d => -d) else n) = j ∧
-        ∀ d ∈ (if j < 0 then n.map (fun d => -d) else n),
-          d = 0 ∨ (d % 2 ≠ 0 ∧ d.natAbs < 2 * 2 ^ (par.width - 2)) := by
-      intro j n hv hd
-      rw [← two_pow_pred par.width hw]
-      split
-      · refine ⟨by rw [eval_map_neg, hv]; omega, ?_⟩
-        intro d hdm
-        obtain ⟨e, hem, rfl⟩ := List.mem_map.1 hdm
-        rcases hd e hem with h0 | ⟨h1, h2⟩
-        · exact Or.inl (by omega)
-        · exact Or.inr ⟨by omega, by rw [Int.natAbs_neg]; exact h2⟩
-      · exact ⟨by rw [hv]; omega, hd⟩
-    obtain ⟨e0, g0⟩ := key k n0 hv0 hd0
-    obtain ⟨e1, g1⟩ := key m n1 hv1 hd1
-    rw [← hb, gops_zero, simInter_spec p q _ _ (by rw [hlen0]; exact htab0) (by rw [hlen1]; exact htab1) _ _
-      (by rw [hlen0]; exact g0) (by rw [hlen1]; exact g1), e0, e1]
-  · exact absurd hb (by simp)
+theorem simInter_correct (isO : G → Bool) (hO : IsOSound isO) (par : Par) (hok : par.Ok) (hw : 2 ≤ par.width)
+    (mul : G → ℤ → Option G) (p : G) (k : ℤ) (q : G) (m : ℤ)
+    (hp : (par.ord : ℤ) • p = 0) (hq : (par.ord : ℤ) • q = 0)
+    (hmp : mul p k = some (k • p)) (hmq : mul q m = some (m • q)) :
+    simInter gops isO par mul p k q m = some (k • p + m • q) := by
+  unfold simInter
+  refine simExits_correct isO hO mul p k q m _ hmp hmq ?_
+  obtain ⟨n0, h0⟩ := recNaf_red_some par hok k par.width
+  obtain ⟨n1, h1⟩ := recNaf_red_some par hok m par.width
+  simp only [h0, h1]
+  congr 1
+  exact redInter_correct par hok.ord_pos p q hp hq k m _ _ hw hw _ n0 n1 h0 h1
 
-theorem simJoint_correct (isO : G → Bool) (hO : IsOSound isO) (par : Par)
-    (mul : G → ℤ → Option G) (hmul : ∀ x j r, mul x j = some r → r = j • x)
-    (p : G) (k : ℤ) (q : G) (m : ℤ) (r : G) (h : simJoint gops isO par mul p k q m = some r) : r = k • p + m • q := by
-  unfold simJoint at h
-  refine simExits_correct isO hO mul hmul p k q m _ r ?_ h
-  intro _ _ hb
-  simp only [Option.map_eq_some_iff] at hb
-  obtain ⟨⟨j0, j1⟩, hj, rfl⟩ := hb
+theorem simJoint_correct (isO : G → Bool) (hO : IsOSound isO) (par : Par) (hok : par.Ok)
+    (mul : G → ℤ → Option G) (p : G) (k : ℤ) (q : G) (m : ℤ)
+    (hp : (par.ord : ℤ) • p = 0) (hq : (par.ord : ℤ) • q = 0)
+    (hmp : mul p k = some (k • p)) (hmq : mul q m = some (m • q)) :
+    simJoint gops isO par mul p k q m = some (k • p + m • q) := by
+  unfold simJoint
+  refine simExits_correct isO hO mul p k q m _ hmp hmq ?_
+  obtain ⟨⟨j0, j1⟩, hj⟩ : ∃ js, Rec.recJsf (2 * (par.fpBits + 1)) (par.red k) (par.red m) = some js := by
+    unfold Rec.recJsf
+    rw [if_neg (by have := red_bitLen par hok k; have := red_bitLen par hok m; omega)]
+    exact ⟨_, rfl⟩
+  rw [hj, Option.map_some]
+  congr 1
   obtain ⟨hv0, hv1, hd0, hd1, _⟩ := Rec.recJsf_spec _ _ _ j0 j1 hj
   have hsign : ∀ (l : List ℤ), (∀ d ∈ l, d.natAbs ≤ 1) → l.map Int.sign = l := by
     intro l hl
@@ -490,9 +577,22 @@ theorem simJoint_correct (isO : G → Bool) (hO : IsOSound isO) (par : Par)
     have : d = -1 ∨ d = 0 ∨ d = 1 := by omega
     rcases this with rfl | rfl | rfl <;> rfl
   simp only
-  rw [simJoint_spec, hsign j0 hd0, hsign j1 hd1, hv0, hv1, natAbs_signed, natAbs_signed]
+  rw [simJoint_spec, hsign j0 hd0, hsign j1 hd1, hv0, hv1, red_zsmul par hok.ord_pos p hp,
+    red_zsmul par hok.ord_pos q hq]
 
-/-- non-vacuity: the routines run on the integers -/
-example : mulLwnaf (gops : Ops ℤ) (fun x => x == 0) ⟨255, 4, 5, 253⟩ 1 (-153) = some (-153) := by decide
+/-- ed_mul_sim_gen's generator-table branch -/
+theorem simPlainGen_correct (par : Par) (hok : par.Ok) (hw : 2 ≤ par.width) (hd : 2 ≤ par.depth)
+    (g : G) (k : ℤ) (q : G) (m : ℤ) (hg : (par.ord : ℤ) • g = 0) (hq : (par.ord : ℤ) • q = 0) :
+    simPlainGen gops par g k q m = some (k • g + m • q) := by
+  unfold simPlainGen
+  obtain ⟨n0, h0⟩ := recNaf_red_some par hok k par.depth
+  obtain ⟨n1, h1⟩ := recNaf_red_some par hok m par.width
+  simp only [h0, h1]
+  congr 1
+  exact redInter_correct par hok.ord_pos g q hg hq k m _ _ hd hw _ n0 n1 h0 h1
+
+/-- non-vacuity: the routines run on the integers (a computation, not an instance of the theorems: no r > 0 kills 1 ∈ ℤ) —
+    the constants of the 255-bit build with a toy order 7 and a scalar longer than the order: −153 mod 7 = 1 -/
+example : mulLwnaf (gops : Ops ℤ) (fun x => x == 0) ⟨255, 4, 5, 7⟩ 1 (-153) = some 1 := by decide
 
 end Relic.Model.EdMul
